@@ -777,24 +777,26 @@ async fn s_large_requests(h: &mut Host) -> Result<(), Fail> {
     for b in 0..3u8 { published.extend(h.publish(t, (0..500u32).map(|i| (vec![b, (i >> 8) as u8, i as u8], HashMap::new())).collect()).await.map_err(setup("publish"))?); }
     // a StreamingPull with a window of 10000 takes the whole backlog of 1500: first deliveries in publish order (C08)
     let mut held = Vec::new();
-    {
-        let first = StreamingPullRequest { subscription: s.to_string(), ack_ids: vec![], modify_deadline_seconds: vec![], modify_deadline_ack_ids: vec![], stream_ack_deadline_seconds: 0, client_id: "c".into(), max_outstanding_messages: 10_000, max_outstanding_bytes: 1_000_000_000 };
-        let mut inbound = h.subscriber.streaming_pull(async_stream::stream! { yield first; futures::future::pending::<()>().await; }).await.map_err(setup("streaming_pull"))?.into_inner();
-        while held.len() < 1500 {
-            match tokio::time::timeout(Duration::from_secs(10), inbound.message()).await {
-                Ok(Ok(Some(r))) => held.extend(r.received_messages),
-                Ok(Ok(None)) | Ok(Err(_)) => return Err(f("C01", format!("an open StreamingPull ended after {} of 1500 messages", held.len()))),
-                Err(_) => return Err(f("C01+C06", format!("an open StreamingPull (window 10000) received {} of 1500 queued messages within 10 s", held.len()))),
-            }
+    let first = StreamingPullRequest { subscription: s.to_string(), ack_ids: vec![], modify_deadline_seconds: vec![], modify_deadline_ack_ids: vec![], stream_ack_deadline_seconds: 0, client_id: "c".into(), max_outstanding_messages: 10_000, max_outstanding_bytes: 1_000_000_000 };
+    let mut inbound = h.subscriber.streaming_pull(async_stream::stream! { yield first; futures::future::pending::<()>().await; }).await.map_err(setup("streaming_pull"))?.into_inner();
+    while held.len() < 1500 {
+        match tokio::time::timeout(Duration::from_secs(10), inbound.message()).await {
+            Ok(Ok(Some(r))) => held.extend(r.received_messages),
+            Ok(Ok(None)) | Ok(Err(_)) => return Err(f("C01", format!("an open StreamingPull ended after {} of 1500 messages", held.len()))),
+            Err(_) => return Err(f("C01+C06", format!("an open StreamingPull (window 10000) received {} of 1500 queued messages within 10 s", held.len()))),
         }
+    }
+    {
         let got: Vec<String> = held.iter().map(|m| m.message.as_ref().map(|x| x.message_id.clone()).unwrap_or_default()).collect();
         if got != published { return Err(f("C08", format!("1500 queued messages streamed to one consumer: first difference from publish order at position {:?} (delivered id {:?}, published id {:?})", got.iter().zip(published.iter()).position(|(a, b)| a != b), got.iter().zip(published.iter()).find(|(a, b)| a != b).map(|x| x.0.clone()), got.iter().zip(published.iter()).find(|(a, b)| a != b).map(|x| x.1.clone())))); }
     }
-    if held.len() != 1500 { return Err(f("C01+C15", format!("1500 messages published, {} delivered", held.len()))); }
+    // one unary Acknowledge names all 1500 deliveries: none of them comes back, neither on the open stream nor to a Pull
     h.ack(s, held.iter().map(|m| m.ack_id.clone()).collect()).await.map_err(|e| f("C02", format!("Acknowledge of 1500 ack ids failed: {:?}", e.code())))?;
     jump(Duration::from_secs(12)).await;
-    let back = h.pull(s, 1000, true).await.map_err(setup("pull"))?;
-    if !back.is_empty() { return Err(f("C02", format!("one Acknowledge request named 1500 outstanding deliveries and returned OK; {} of them were delivered again after the deadline", back.len()))); }
+    let mut back = h.pull(s, 1000, true).await.map_err(setup("pull"))?.len();
+    for _ in 0..5 { match tokio::time::timeout(Duration::from_millis(300), inbound.message()).await { Ok(Ok(Some(r))) => back += r.received_messages.len(), _ => break } }
+    if back > 0 { return Err(f("C02", format!("one Acknowledge request named 1500 outstanding deliveries and returned OK; {} of them were delivered again after the deadline", back))); }
+    drop(inbound);
     // in-stream modack: 3 live deliveries nacked in the first entries, 1196 unknown ids, and a malformed id at the very end
     // (on a fresh subscription: the server side of the first stream may still be winding down)
     let (t, s) = ("projects/p/topics/lr2", "projects/p/subscriptions/lr2");
